@@ -80,6 +80,8 @@ CONTRACT_REQUIRES = [
 CONTRACT_ENSURES = [
     ("C13.builder.nonempty", "node_list@.len() >= 1"),
     ("C13.builder.leaf_sizes_sum", "total(node_list@) == elements@.len()"),
+    # ... and they are the obstacles given, each exactly once (multiset equality)
+    ("C13.builder.same_elements", "mtotal(node_list@) =~= elements@.to_multiset()"),
     ("C13.builder.root_first", "node_list@[0].0 == 0 && node_list@[0].3.is_none()"),
     ("C13.builder.leaf_bound", "elements@.len() > max_num_elements ==> shapes_ok(node_list@, max_num_elements as int)"),
     ("C13.builder.parents", "elements@.len() > max_num_elements ==> parents_ok(node_list@)"),
@@ -93,6 +95,7 @@ LOOP_INVARIANTS = [
     ("C13.builder.inv", "n <= usize::MAX / 4"),
     ("C13.builder.inv.pending_nonempty", "all_nonempty(pending@)"),
     ("C13.builder.inv.nothing_lost", "total(node_list@) + total(pending@) == n"),
+    ("C13.builder.inv.same_elements", "mtotal(node_list@).add(mtotal(pending@)) =~= all"),
     ("C13.builder.inv.id_bound", "id + 2 * weight(pending@) <= 4 * n"),
     ("C13.builder.inv", "node_list@.len() >= 1"),
     ("C13.builder.inv.leaf_bound", "shapes_ok(node_list@, max_num_elements as int)"),
@@ -107,7 +110,7 @@ PUSH_NL = "proof { lemma_push(%(g)s, node_list@.last()); assert(node_list@ =~= %
 # (anchor regex, occurrence (1-based) within the function, 'before'|'after', text)
 INSERTS = [
     (r"^\s*let ll = elements\.len\(\);$", 1, "after",
-     "let ghost n: int = elements@.len() as int;"),
+     "let ghost n: int = elements@.len() as int;\nlet ghost all = elements@.to_multiset();"),
     (r"^\s*node_list\.push\(TreeElement\(0, Node, L, None, None\)\);$", 1, "before",
      "let ghost nl0 = node_list@;"),
     (r"^\s*node_list\.push\(TreeElement\(0, Node, L, None, None\)\);$", 1, "after",
